@@ -98,5 +98,26 @@ UNIT = Unit(
                      Closure(1, "a: u128, b: CoinValue", "(r: u128)", ensures=[C("satl", "r as int == sat128(a + b.0)", "C15")]),
                      Closure(2, "tx: &Transaction", "(r: CoinValue)", requires=[C("has0r", "tx.outputs@.len() > 0")], ensures=[C("right", "r.0 as int == req_value(*tx, pool.right)", "C15")]),
                      Closure(3, "a: u128, b: CoinValue", "(r: u128)", ensures=[C("satr", "r as int == sat128(a + b.0)", "C15")])]),
+        Fn(S, "tip_902", impl="UnsealedState", mode="assume", **st_tip(180000)),
+        Fn(M, "create_builtins", home="C16", implicit_props=("C09", "C16"),
+           uses="group_core_axioms, axiom_builtin_order, axiom_bytes_lt, axiom_denom_bytes_inj",
+           rewrites=[("MUTPARAM", "state", "st")],
+           ensures=[C("exist", """(forall|k: PoolKey| #[trigger] res.pools@.contains_key(k) <==> (state.pools@.contains_key(k) || k == pk_mel_sym() || k == pk_mel_erg() || (spec_tip(state.network, state.height, 180000) && k == pk_erg_sym())))""", "C16"),
+                    C("values", "forall|k: PoolKey| #[trigger] res.pools@.contains_key(k) ==> (if state.pools@.contains_key(k) { res.pools@[k] == state.pools@[k] } else { is_initial_pool(res.pools@[k]) })", "C16"),
+                    C("frame", "pool_phase_frame(state, res) && res.fee_pool == state.fee_pool && res.coins == state.coins", "C16", "C17")]),
+        Fn(M, "process_deposits", mode="assume", **mm_phase("deposits")),
+        Fn(M, "process_withdrawals", mode="assume", **mm_phase("withdrawals")),
+        Fn(M, "process_pegging", mode="assume", **mm_phase("pegging")),
+        Fn(M, "process_swaps", mode="assume", **mm_phase("swaps")),
+        Fn(SM, "val_iter", impl="SmtMapping", mode="assume", wrap=SMT_WRAP, sig_subst=[("impl Iterator<Item = V> + '_", "Vec<V>")], **smt_val_iter()),
+        Fn(M, "preseal_melmint", home="C16", implicit_props=("C09", "C16", "C15"), **mm_preseal(),
+           uses="group_core_axioms, axiom_builtin_order, axiom_bytes_lt, axiom_denom_bytes_inj",
+           injects=[Inject("entry", "let ghost s0 = state;"),
+                    Inject(("after_let", "state", 0), """proof { assert(state.pools@.contains_key(pk_mel_sym())); assert(state.pools@.contains_key(pk_mel_erg()));
+                        if spec_tip(s0.network, s0.height, 180000) { assert(state.pools@.contains_key(pk_erg_sym())); }
+                        assert(builtins_live(state)); assert(pools_ok(state.pools@)) by { assert forall|k: PoolKey| #[trigger] state.pools@.contains_key(k) implies
+                            ((pool_live(state.pools@[k]) && state.pools@[k].liqs > 0) || (state.pools@[k].lefts == 0 && state.pools@[k].rights == 0 && state.pools@[k].liqs == 0)) by { if s0.pools@.contains_key(k) { assert(state.pools@[k] == s0.pools@[k]); } } }
+                        assert(state_inv(state)); lemma_two_pools_min(state); }"""), Inject(("after_let", "state", 1), "proof { lemma_two_pools_min(state); }"),
+                    Inject(("after_let", "state", 2), "proof { lemma_two_pools_min(state); }"), Inject(("after_let", "state", 3), "proof { lemma_two_pools_min(state); }")]),
     ],
 )
